@@ -284,14 +284,14 @@ Proof.
 Qed.
 
 Theorem lab_matches_reference : forall sx s h t b,
-  no_with s = true -> same_obs (run_ref s h t b) (run_lab false true sx s h t b).
-Proof. intros. rewrite run_lab_eq_run_sch. apply repaired_matches_reference; auto. Qed.
+  same_obs (run_ref s h t b) (run_lab false true sx s h t b).
+Proof. intros. rewrite run_lab_eq_run_sch. apply repaired_matches_reference. Qed.
 
 Theorem lab_current_matches_reference_unless_crash : forall sx s h t b,
-  no_with s = true -> fst (run_lab false false sx s h t b) <> OCrash ->
+  fst (run_lab false false sx s h t b) <> OCrash ->
   same_obs (run_ref s h t b) (run_lab false false sx s h t b).
 Proof.
-  intros sx s h t b NW NC. rewrite run_lab_eq_run_sch in *.
+  intros sx s h t b NC. rewrite run_lab_eq_run_sch in *.
   apply current_matches_reference_unless_crash; auto.
 Qed.
 
@@ -316,7 +316,7 @@ Definition else_raises_matching : stmt :=
   STry (SLog 1) (HCons (Some 3) None (SLog 2) HNil) (SRaise (RNew 3) NoCause).
 
 Theorem late_switch_refuted :
-  exists s h t b, no_with s = true /\
+  exists s h t b,
     fst (run_lab true true true s h t b) = ONorm /\ fst (run_ref s h t b) = ORaise 0 /\
     fst (run_lab false true true s h t b) = ORaise 0.
 Proof. exists else_raises_matching, [], None, None. vm_compute. auto. Qed.
